@@ -42,6 +42,8 @@ class Operation(ElementBase):
     def _project_update(self, edge: EdgeData, label: ProjectToType):
         """Adds a label to a Project edge or creates a new Project edge and returns it"""
         if isinstance(edge, Project):
+            # (a new object: the existing one may be used for other edges as well)
+            edge = Project(list(edge.label))
             edge.add_label(label)
             return edge
 
